@@ -169,6 +169,7 @@ PARTS = {
     "C03": ["c03", "c03b"],
     "C10": ["c10", "c10b"],
     "C13": ["c13", "c13b"],
+    "C14": ["c14", "c14b"],
     "C15": ["c15", "c15b"],
     "C16": ["c16", "c16b"],
     "C18": ["c18", "c18b"],
